@@ -105,6 +105,7 @@ class PathCtx:
         self.depth = 0
         self.cover = set()
         self.uncertain = False
+        self.forks_seen = 0
         self.spec_mode = 0   # >0 while a contract (spec function) is being executed
         self.callstack = []
 
@@ -193,6 +194,9 @@ class PathCtx:
         if self.cursor < len(self.decisions):
             k = self.decisions[self.cursor]
             self.cursor += 1
+            if k >= 100:            # a genuine two-way fork
+                k -= 100
+                self.forks_seen += 1
             self.assume(conds[k])
             return k
         feas = []
@@ -209,6 +213,25 @@ class PathCtx:
                 self.engine.unknown_branches += 1
         if not feas:
             raise PathPruned()
+        genuine = len(feas) == 2 and len(conds) == 2
+        sh = self.engine.shard
+        if genuine:
+            n_fork = self.forks_seen
+            self.forks_seen += 1
+            if sh is not None and sh[2] <= n_fork < sh[2] + sh[1]:
+                # sharded exploration: this job only follows its own side of this fork
+                bit = (sh[0] >> (n_fork - sh[2])) & 1
+                k = feas[bit]
+                self.decisions.append(k + 100)
+                self.cursor += 1
+                self.assume(conds[k])
+                return k
+            k = feas[0]
+            self.engine.queue(self.decisions[:self.cursor] + [feas[1] + 100])
+            self.decisions.append(k + 100)
+            self.cursor += 1
+            self.assume(conds[k])
+            return k
         k = feas[0]
         for alt in feas[1:]:
             self.engine.queue(self.decisions[:self.cursor] + [alt])
@@ -265,7 +288,10 @@ class PathCtx:
             return
         formula = tob(formula)
         t0 = time.time()
-        r, model = self.solve([z3.Not(formula)], want_model=True)
+        if z3.is_true(z3.simplify(formula)):
+            r, model = z3.unsat, None       # trivially valid: no solver call
+        else:
+            r, model = self.solve([z3.Not(formula)], want_model=True)
         dt = time.time() - t0
         status = _status(r)
         ob = Obligation(name, status, dt, detail, list(self.decisions[:self.cursor]),
@@ -314,6 +340,7 @@ class Engine:
         self.solver_time = 0.0
         self.solver_calls = 0
         self.unknown_branches = 0
+        self.shard = None        # (index, bits, skip): follow one side of forks skip..skip+bits-1
         self.branch_timeout_ms = 1500
         self.retries = 0
         self.paths = 0
@@ -387,9 +414,22 @@ class Engine:
             n += 1
             if n > max_paths:
                 raise Undecided(f"{name}: more than {max_paths} paths")
+            mark = len(self.results)
             try:
                 summary = job(ctx)
             except (PathPruned, LemmaDone):
+                summary = None
+                ended = False
+            else:
+                ended = True
+            sh = self.shard
+            done_bits = max(0, min(sh[1], ctx.forks_seen - sh[2])) if sh is not None else 0
+            if sh is not None and done_bits < sh[1] and (sh[0] >> done_bits) != 0:
+                # a path with fewer forks than shard bits belongs to the shard whose remaining
+                # bits are zero; the other shards drop their duplicate of it
+                del self.results[mark:]
+                continue
+            if not ended:
                 continue
             self.paths += 1
             if summary is not None:
